@@ -38,14 +38,20 @@ CLAIMED = {
         "declarator text with both cv placements, Struct = the same type in type-trait combinators), TLC enumeration "
         "with well-formedness invariants; every term declared as variable / typedef / parameter and replayed: g++ "
         "confirms Render = Struct (spec sanity), parse_file must accept it, and the text parse_file prints back and "
-        "the prototype recorded in the database are compiled next to the original under static_assert(is_same)",
+        "the prototype recorded in the database are compiled next to the original under static_assert(is_same); "
+        "specs NameLookup (namespaces, using-declarations/-directives, aliases, class scopes), TemplInst (class-template "
+        "instantiation: member typedefs of stratified templates, default arguments, alias templates, traits idiom, "
+        "injected class name; Norm vs the implementation-shaped NormE) and TemplNonType (non-type parameters, array "
+        "bounds, expression arguments, named constants, default chains) enumerated / simulated by TLC and replayed the "
+        "same way (g++ is the authority on every case; parse_file -p and database prototypes are the observations)",
         "Every well-formed type term up to the depth bound over pointer / reference / rvalue reference / array / "
         "function / pointer-to-member / const constructors is enumerated by TLC; acceptance and type identity of "
         "everything interrogate prints for it are decided by g++ on every case; shipped stub headers that g++ accepts "
         "must parse with zero errors.",
         "Trusted: TLC, g++ 12 (is_same decides type identity; it also validates the spec's Render against Struct on "
-        "every term), the 40-line renderer of declaration forms. Name lookup through namespaces/using/shadowing and "
-        "template arguments are not yet covered by a spec (only exercised through the stub-header corpus).",
+        "every term), the renderers of declaration forms / namespace programs / template programs. Specialisations, "
+        "member templates and class-scope lookup beyond nested classes are covered only by fixed probes or the "
+        "stub-header corpus.",
         "DESIGN.md §C06"),
     "C16": (
         "TLA+ spec ModuleInit (write_python_table_native's ready-set loop and find_dependency_cycle transcribed "
@@ -179,8 +185,9 @@ CLAIMED = {
         "TLA+ specs ToolRun (process life cycle and exit protocol) and LexModes (51 scanner modes x 24 symbols; TLC "
         "emits one input per mode path and the check verifies every reachable (mode, symbol/EOF) transition is "
         "covered); each generated input plus hand-written directive/literal edge cases fed as source, include, .N "
-        "file and -D value to parse_file and interrogate; all run records and H-run hook events validated against "
-        "ToolRunTrace; thorough tier under ASan+UBSan",
+        "file and -D value to parse_file and interrogate; spec ExprEdge (every operator of the constant evaluator x 20 "
+        "operand classes, rendered into ten evaluating contexts); all run records and H-run hook events validated "
+        "against ToolRunTrace; thorough tier under ASan+UBSan",
         "Bounded-exhaustive enumeration over the lexer-mode model instead of random fuzzing: every mode transition "
         "reachable within the length bound is exercised; each run must terminate in bounded time without signal, and "
         "a run that reported a parse error exits non-zero and writes no output.",
